@@ -119,8 +119,8 @@ type Harness struct {
 	cwd string // scratch working directory (removed at the end)
 }
 
-const ruleText = "one case = (command, payload bytes, protocol state[, preceding messages]); distinct = distinct (command,state,payload); corpus of edge inputs and defect witnesses first, then per-command structured generators with lying counts / CompactSize forms / wrapping counts, a mutated copy of every third case, raw wire bytes for FetchMessage, boundary lengths, addr/getaddr against a peers database at its record limit, concurrent getdata/inv processing against inv routing in a child process, library entry points"
-const explText = "Real handlers (client/network via verif hook, on a synthetic chain) are run on every case and checked for panic / locks held after return (c.Mutex, Mutex_net, MutexRcv, TxMutex, peersdb, cfg and 7 more) / wall time (watchdog: a handler that does not return is a failure); the Lean model of the parsing layer is asked for the same payload and outcome class, reject reason and exposed parsed fields are compared. A child process runs a connection's own thread (getdata, inv, SendInvs) concurrently with NetRouteInv/NetRouteInvExt and a statistics reader, so that an unsynchronised access to the connection's shared maps (a fatal runtime error no recover() can catch) becomes an observation. Theorems (Props/C18) are about the model of the parsing layer and about the lock discipline facts regenerated from the source; the backend behind the parser is exercised but not modelled."
+const ruleText = "one case = (command, payload bytes, protocol state[, preceding messages / repetitions]); distinct = distinct (command,state,payload); block bodies cut at and inside every transaction (child process) first, then the corpus of edge inputs and defect witnesses, per-command structured generators with lying counts / CompactSize forms / wrapping counts (cmpctblock→blocktxn histories with 1-4 unresolved transactions answered with missing / repeated / unrequested / reordered transactions), a mutated copy of every third case, raw wire bytes for FetchMessage, boundary lengths, addr/getaddr against a peers database at its record limit, a peer that does not read its socket (request histories up to the 16 MB send-buffer limit, and every replying command with the buffer preset around that limit), concurrent getdata/inv processing against inv routing in a child process, library entry points"
+const explText = "Real handlers (client/network via verif hook, on a synthetic chain) are run on every case and checked for panic / locks held after return (c.Mutex, Mutex_net, MutexRcv, TxMutex, peersdb, cfg and 7 more) / wall time (watchdog: a handler that does not return is a failure, the locks held meanwhile are named); the Lean model of the parsing layer is asked for the same payload and outcome class, reject reason and exposed parsed fields are compared. Block parsing (NewBlock + BuildTxList, and `block` messages behind an accepted header) runs in a child process, because a panic in one of BuildTxList's worker goroutines ends the process whatever recover() the callers have: the child records the input it is about to run, the parent reports the bytes. A second child process runs a connection's own thread (getdata, inv, SendInvs) concurrently with NetRouteInv/NetRouteInvExt and a statistics reader, so that an unsynchronised access to the connection's shared maps (a fatal runtime error no recover() can catch) becomes an observation. Theorems (Props/C18) are about the model of the parsing layer and about the lock discipline facts regenerated from the source (including: no call, with a mutex held, of a function that locks the same mutex); the backend behind the parser is exercised but not modelled."
 
 // finish removes the scratch directories (vlib's Finish exits the process) and reports.
 func (h *Harness) finish(rule, expl string, wedged bool) {
@@ -262,7 +262,9 @@ func (h *Harness) One(cs Case) {
 	if cs.Cmd == "blocktxn" {
 		collector = h.rn.lastCollector
 	}
-	housekeeping()
+	if !o.Hang { // (a handler that is stuck may hold MutexRcv: nothing of the package is touched any more)
+		housekeeping()
+	}
 	r.Eval("cmd:"+cs.Cmd, cs.Cmd+cs.Pre+cs.Pl+fmt.Sprint(len(cs.Seq)))
 	r.Hit("src:" + strings.SplitN(cs.Note, ":", 2)[0])
 	if cs.has("nover") {
@@ -639,6 +641,8 @@ func main() {
 		"client globals are initialised by the harness the way client/init.go + client/main.go do (synthetic easy-PoW chain from go/chainkit, empty mempool, temp-dir peers database)",
 		"blocktxn / cmpctblock payloads are compared with the model up to 40000 bytes: the loops of the executable model are linear now (csimp forms proved equal, Props.C18.fast_loops_agree), but C09's Wire.txSize measures the whole unread rest per transaction and the duplicate-short-id test is a list search; at the full size limit only the real code is run",
 		"the peers database of the fulldb cases is a volatile qdb filled to exactly MaxPeersInDB+MaxPeersDeviation (±1) records through the public API; the concurrent scenario observes only what the Go runtime itself detects (concurrent map access, deadlock) - it is not run under the race detector",
+		"the slow-reader stream reaches SendRawMsg's overflow branch through real message histories for ping and getheaders (a peer that does not read), and for every other replying command by presetting the exported ring indices SendBufProd/SendBufCons to the state such a history leaves; replies throttled by SendingPaused (getdata) never fill the buffer by themselves",
+		"the block-parsing child builds its own synthetic chain from the seed in its spec; a replay carries the input bytes and, for `block` messages, falls back to regenerating the case by index when the header is not one of that chain's",
 		"getmp counts between 2^24 and 2^62 are kept out of the generated stream: ProcessGetMP passes the peer's count as size hint to make(map) (authorised peers only; an out-of-memory abort cannot be observed in-process)",
 	}
 
